@@ -20,13 +20,15 @@ def TYPE_END := 1
 def TYPE_DATA := 2
 def TYPE_SEED := 3
 
-/-- `mask_with_keystream`: xor with the first 16 bytes of successive key stream blocks
-    (`iter` is a `u8` in the code; it wraps / panics only beyond 4096 bytes of data) -/
+/-- `mask_with_keystream`: xor with the first 16 bytes of successive key stream blocks.
+    `iter` is a `u8` in the code and is advanced with `iter = iter.wrapping_add(1)`: the block counter
+    wraps modulo 256 in every build profile, so beyond 4096 bytes of data the key stream blocks repeat
+    (block `i + 256` is masked like block `i`) and nothing panics. -/
 def maskFrom (env : BeaconEnv) (type seed : Nat) : Bytes → Nat → Nat → Bytes
   | [], _, _ => []
   | b :: rest, iter, pos =>
     let m := (env.ks type seed iter).getD pos 0
-    (b ^^^ m) :: (if pos + 1 = 16 then maskFrom env type seed rest (iter + 1) 0 else maskFrom env type seed rest iter (pos + 1))
+    (b ^^^ m) :: (if pos + 1 = 16 then maskFrom env type seed rest ((iter + 1) % 256) 0 else maskFrom env type seed rest iter (pos + 1))
 
 def mask (env : BeaconEnv) (data : Bytes) (type seed : Nat) : Bytes := maskFrom env type seed data 0 0
 
